@@ -525,23 +525,39 @@ Lemma quick_reader_empty_exons_refuted :
 Proof. split; vm_compute; reflexivity. Qed.
 
 (* ------------------------------------------------------------------ GeneInfo header (the rest of GeneInfo is re-derived from the annotation) *)
-Record ghead := MkGene { g_delta : Z; g_genes : list str; g_chr : str; g_start : Z; g_end : Z }.
-Definition enc_ghead (g:ghead) : list byte :=
-  enc c_u32 (g_delta g) ++ enc c_strs (g_genes g) ++ enc c_str (g_chr g) ++ enc c_u32 (g_start g) ++ enc c_u32 (g_end g).
-Definition dec_ghead (l:list byte) : option (ghead * list byte) :=
+(* Two layouts.  rr = true: the header also carries the reference window of the reads collected for the gene set (all_read_region_start / _end),
+   written after the gene region (fixes/C18_serialize_read_region.diff).  rr = false: the layout before that repair - the window is not stored
+   and the reader sets it to the gene region, so only headers whose window IS the gene region survive the round trip. *)
+Record ghead := MkGene { g_delta : Z; g_genes : list str; g_chr : str; g_start : Z; g_end : Z; g_rstart : Z; g_rend : Z }.
+Definition enc_ghead (rr:bool) (g:ghead) : list byte :=
+  enc c_u32 (g_delta g) ++ enc c_strs (g_genes g) ++ enc c_str (g_chr g) ++ enc c_u32 (g_start g) ++ enc c_u32 (g_end g) ++
+  (if rr then enc c_u32 (g_rstart g) ++ enc c_u32 (g_rend g) else []).
+Definition dec_ghead (rr:bool) (l:list byte) : option (ghead * list byte) :=
   do (d, r) <- dec c_u32 l;
   do (gs, r) <- dec c_strs r;
   do (chr, r) <- dec c_str r;
   do (s, r) <- dec c_u32 r;
   do (e, r) <- dec c_u32 r;
-  Some (MkGene d gs chr s e, r).
-Definition dom_ghead (g:ghead) : Prop :=
-  dom c_u32 (g_delta g) /\ dom c_strs (g_genes g) /\ dom c_str (g_chr g) /\ dom c_u32 (g_start g) /\ dom c_u32 (g_end g).
-Definition c_ghead : codec ghead := {| enc := enc_ghead; dec := dec_ghead; dom := dom_ghead |}.
-Lemma rt_ghead : rt c_ghead.
-Proof. intros [d gs chr s e] rest D. cbn [enc dec dom c_ghead] in *. unfold dom_ghead, enc_ghead, dec_ghead in *.
-  cbn [g_delta g_genes g_chr g_start g_end] in *. destruct D as (D1 & D2 & D3 & D4 & D5).
-  repeat rewrite <- app_assoc. rts. reflexivity. Qed.
+  if rr then
+    do (rs, r) <- dec c_u32 r;
+    do (re, r) <- dec c_u32 r;
+    Some (MkGene d gs chr s e rs re, r)
+  else Some (MkGene d gs chr s e s e, r).
+Definition dom_ghead (rr:bool) (g:ghead) : Prop :=
+  dom c_u32 (g_delta g) /\ dom c_strs (g_genes g) /\ dom c_str (g_chr g) /\ dom c_u32 (g_start g) /\ dom c_u32 (g_end g) /\
+  (if rr then dom c_u32 (g_rstart g) /\ dom c_u32 (g_rend g) else g_rstart g = g_start g /\ g_rend g = g_end g).
+Definition c_ghead (rr:bool) : codec ghead := {| enc := enc_ghead rr; dec := dec_ghead rr; dom := dom_ghead rr |}.
+Lemma rt_ghead rr : rt (c_ghead rr).
+Proof. intros [d gs chr s e rs re] rest D. cbn [enc dec dom c_ghead] in *. unfold dom_ghead, enc_ghead, dec_ghead in *.
+  cbn [g_delta g_genes g_chr g_start g_end g_rstart g_rend] in *. destruct D as (D1 & D2 & D3 & D4 & D5 & D6).
+  destruct rr.
+  - destruct D6 as [D6 D7]. repeat rewrite <- app_assoc. rts. reflexivity.
+  - destruct D6 as [-> ->]. rewrite app_nil_r. repeat rewrite <- app_assoc. rts. reflexivity. Qed.
+(* the layout without the window loses it: a header whose window is not the gene region comes back with the gene region as its window *)
+Example ghead_window_lost_unrepaired :
+  dec (c_ghead false) (enc (c_ghead false) (MkGene 6 [] [] 3395440 3453804 3391000 3460000)) = Some (MkGene 6 [] [] 3395440 3453804 3395440 3453804, []) /\
+  dec (c_ghead true) (enc (c_ghead true) (MkGene 6 [] [] 3395440 3453804 3391000 3460000)) = Some (MkGene 6 [] [] 3395440 3453804 3391000 3460000, []).
+Proof. split; vm_compute; reflexivity. Qed.
 
 (* ------------------------------------------------------------------ stream framing (TmpFileAssignmentPrinter and the loaders of assignment_io.py /
    dataset_processor.py): (GENE_INFO header (READ_ASSIGNMENT record)* )* SHORT_TERMINATION_INT.
@@ -661,29 +677,29 @@ End Stream.
 
 (* the two loaders as instances *)
 Definition group := (ghead * list rassign)%type.
-Definition enc_save (sg:bool) : list group -> list byte := enc_stream ghead rassign (enc c_ghead) (enc (c_ra sg)).
+Definition enc_save (sg rr:bool) : list group -> list byte := enc_stream ghead rassign (enc (c_ghead rr)) (enc (c_ra sg)).
 (* NormalTmpFileAssignmentLoader driven by ReadAssignmentLoader.get_next *)
-Definition dec_save_full (sg:bool) : list byte -> option (list (ghead * list rassign) * list byte) :=
-  dec_stream ghead rassign (dec c_ghead) (dec (c_ra sg)).
+Definition dec_save_full (sg rr:bool) : list byte -> option (list (ghead * list rassign) * list byte) :=
+  dec_stream ghead rassign (dec (c_ghead rr)) (dec (c_ra sg)).
 (* QuickTmpFileAssignmentLoader driven by BasicReadAssignmentLoader.get_next: headers are read and dropped *)
-Definition dec_save_quick (sg:bool) : list byte -> option (list (unit * list bassign) * list byte) :=
-  dec_stream unit bassign (fun l => do (g, r) <- dec c_ghead l; Some (tt, r)) (dec_quick sg).
-Definition dom_save (sg:bool) (gs:list group) : Prop := Forall (fun g => dom c_ghead (fst g) /\ Forall (dom (c_ra sg)) (snd g)) gs.
+Definition dec_save_quick (sg rr:bool) : list byte -> option (list (unit * list bassign) * list byte) :=
+  dec_stream unit bassign (fun l => do (g, r) <- dec (c_ghead rr) l; Some (tt, r)) (dec_quick sg).
+Definition dom_save (sg rr:bool) (gs:list group) : Prop := Forall (fun g => dom (c_ghead rr) (fst g) /\ Forall (dom (c_ra sg)) (snd g)) gs.
 
-Theorem stream_roundtrip sg : forall gs rest, dom_save sg gs -> dec_save_full sg (enc_save sg gs ++ rest) = Some (gs, rest).
+Theorem stream_roundtrip sg rr : forall gs rest, dom_save sg rr gs -> dec_save_full sg rr (enc_save sg rr gs ++ rest) = Some (gs, rest).
 Proof. intros gs rest H. unfold dec_save_full, enc_save.
-  rewrite (stream_generic ghead rassign ghead rassign (enc c_ghead) (enc (c_ra sg)) (dec c_ghead) (dec (c_ra sg)) (fun g => g) (fun a => a)
-             (dom c_ghead) (dom (c_ra sg)) rt_ghead (rt_ra sg) gs rest H).
+  rewrite (stream_generic ghead rassign ghead rassign (enc (c_ghead rr)) (enc (c_ra sg)) (dec (c_ghead rr)) (dec (c_ra sg)) (fun g => g) (fun a => a)
+             (dom (c_ghead rr)) (dom (c_ra sg)) (rt_ghead rr) (rt_ra sg) gs rest H).
   assert (E: map (fun g : ghead * list rassign => (fst g, map (fun a : rassign => a) (snd g))) gs = gs).
   { clear. induction gs as [|[g rs] t IH]; [reflexivity|]. cbn [map fst snd]. rewrite map_id, IH. reflexivity. }
   rewrite E. reflexivity. Qed.
 
-Theorem stream_quick_aligned sg : forall gs rest, dom_save sg gs -> Forall (fun g => Forall (fun a => ra_exons a <> []) (snd g)) gs ->
-  dec_save_quick sg (enc_save sg gs ++ rest) = Some (map (fun g => (tt, map basic_of (snd g))) gs, rest).
+Theorem stream_quick_aligned sg rr : forall gs rest, dom_save sg rr gs -> Forall (fun g => Forall (fun a => ra_exons a <> []) (snd g)) gs ->
+  dec_save_quick sg rr (enc_save sg rr gs ++ rest) = Some (map (fun g => (tt, map basic_of (snd g))) gs, rest).
 Proof. intros gs rest H Hex. unfold dec_save_quick, enc_save.
-  apply (stream_generic ghead rassign unit bassign (enc c_ghead) (enc (c_ra sg)) _ (dec_quick sg) (fun _ => tt) basic_of
-             (dom c_ghead) (fun a => dom (c_ra sg) a /\ ra_exons a <> [])).
-  - intros g r D. rewrite rt_ghead by exact D. reflexivity.
+  apply (stream_generic ghead rassign unit bassign (enc (c_ghead rr)) (enc (c_ra sg)) _ (dec_quick sg) (fun _ => tt) basic_of
+             (dom (c_ghead rr)) (fun a => dom (c_ra sg) a /\ ra_exons a <> [])).
+  - intros g r D. rewrite (rt_ghead rr) by exact D. reflexivity.
   - intros a r [D E]. apply quick_reader_aligned; assumption.
   - clear rest. induction gs as [|g t IH]; constructor.
     + inversion H; inversion Hex; subst. destruct H2 as [Hg Hr]. split; [exact Hg|].
@@ -787,8 +803,9 @@ Definition ra_wf (sg:bool) (a:rassign) : Prop :=
 Definition basic_wf (b:bassign) : Prop :=
   u32 (b_id b) /\ short_ascii (b_read_id b) /\ short_ascii (b_chr b) /\ u32 (b_start b) /\ u32 (b_end b) /\ pair_wf (b_region b) /\
   length (b_flags b) = 2%nat /\ u32 (b_penalty b) /\ list_wf short_ascii (b_genes b) /\ list_wf short_ascii (b_isoforms b).
-Definition ghead_wf (g:ghead) : Prop :=
-  u32 (g_delta g) /\ list_wf short_ascii (g_genes g) /\ short_ascii (g_chr g) /\ u32 (g_start g) /\ u32 (g_end g).
+Definition ghead_wf (rr:bool) (g:ghead) : Prop :=
+  u32 (g_delta g) /\ list_wf short_ascii (g_genes g) /\ short_ascii (g_chr g) /\ u32 (g_start g) /\ u32 (g_end g) /\
+  (if rr then u32 (g_rstart g) /\ u32 (g_rend g) else g_rstart g = g_start g /\ g_rend g = g_end g).
 
 Lemma list_wf_dom {A} (c:codec A) (P:A -> Prop) l : (forall x, P x -> dom c x) -> list_wf P l -> dom (c_listg c) l.
 Proof. intros H [Hl Hf]. split; [exact Hl|]. eapply Forall_impl; [exact H|exact Hf]. Qed.
@@ -819,9 +836,10 @@ Proof. intros (H1 & H2 & H3 & H4 & H5 & [H6 H6'] & H7 & H8 & H9 & H10).
     try (repeat constructor; fail);
     try (apply (list_wf_dom c_str short_ascii); [intros x Hx; exact Hx|assumption]).
   split; [exact H7|repeat constructor]. Qed.
-Lemma ghead_wf_dom g : ghead_wf g -> dom c_ghead g.
-Proof. intros (H1 & H2 & H3 & H4 & H5). split; [exact H1|]. split; [|split; [exact H3|split; [exact H4|exact H5]]].
-  apply (list_wf_dom c_str short_ascii); [intros x Hx; exact Hx|exact H2]. Qed.
+Lemma ghead_wf_dom rr g : ghead_wf rr g -> dom (c_ghead rr) g.
+Proof. intros (H1 & H2 & H3 & H4 & H5 & H6). split; [exact H1|]. split; [|split; [exact H3|split; [exact H4|split; [exact H5|]]]].
+  - apply (list_wf_dom c_str short_ascii); [intros x Hx; exact Hx|exact H2].
+  - destruct rr; exact H6. Qed.
 Lemma penalties_nonneg_of_wf sg a : ra_wf sg a -> Forall (fun m => (0 <= m_penalty m)%Z) (ra_matches a).
 Proof. intros H. destruct H as (_ & _ & _ & _ & _ & _ & _ & _ & _ & _ & _ & _ & _ & _ & _ & [_ H16] & _).
   eapply Forall_impl; [|exact H16]. intros m (_ & _ & _ & Hp & _). apply Hp. Qed.
@@ -858,7 +876,8 @@ Definition basic_eqb_gen (leq:list str -> list str -> bool) (a b:bassign) : bool
 Definition basic_eqb := basic_eqb_gen strs_eqb.
 Definition basic_seteqb := basic_eqb_gen set_eqb.
 Definition ghead_eqb (a b:ghead) : bool :=
-  (g_delta a =? g_delta b)%Z && strs_eqb (g_genes a) (g_genes b) && str_eqb (g_chr a) (g_chr b) && (g_start a =? g_start b)%Z && (g_end a =? g_end b)%Z.
+  (g_delta a =? g_delta b)%Z && strs_eqb (g_genes a) (g_genes b) && str_eqb (g_chr a) (g_chr b) && (g_start a =? g_start b)%Z && (g_end a =? g_end b)%Z &&
+  (g_rstart a =? g_rstart b)%Z && (g_rend a =? g_rend b)%Z.
 Definition bytes_eqb : list byte -> list byte -> bool := list_eqb N.eqb.
 Definition dec_eqb {A} (e:A -> A -> bool) (x y:option (A * list byte)) : bool := opt_eqb (pair_eqb e bytes_eqb) x y.
 
